@@ -83,6 +83,11 @@ CLAIMED = {
          'oracle: random partitions of a master event list binned by the real xpbin and summed in all orders vs the product of the merged events for PCUBE (weighted or not), PHA1, PP, CMAP '
          '(and the written sum), MDPMAPCUBE, PMAPCUBE, LC; the compatibility guard.',
          'Lean kernel + Mathlib; model + generators; float32 column arithmetic (3e-5); known findings: weighted PHA1 normalisation, LC EXPOSURE/COUNTS grouping dependence.'),
+ 'C15': ('proof', 'Lean 4 theorems about a model of the linear-spline (k = 1) generator via a general piecewise-linear inverse-interpolation lemma, tied by correspondence on Float',
+         'interp_inv (general ordered field), cdf_ppf_id, ppf_cdf_id, ppf_mono, ppf_endpoints, bounded_in_bounds, dedupFirst_of_strict, negative_rejected, and zero_stretch_fails '
+         '(the listed finding as a theorem about the model); ppf/cdf values and ppf nodes of real generators compared with the model on non-uniform grids, sharp edges, trailing/leading zeros; '
+         'the statement evaluated on the implementation incl. bounded sampling with bounds exactly 0.0, k = 2, 3 on smooth densities, auxiliary-variable slices, negative densities refused.',
+         'Lean kernel + Mathlib; model + generators; FITPACK for k ≥ 2 not modelled (oracle only, partial); known findings: k = 1 interior zero stretches, k ≥ 2 undershoot ⇒ non-monotone ppf.'),
 }
 NOT_YET = 'check not built yet in this round (work in progress; see DESIGN.md section 7 for the planned model and theorems)'
 
